@@ -212,49 +212,81 @@ def _results_var(ctx, R, fi, ret, name, gens, nested, pm):
 
 def _q2(ctx, fi):
     R = "C32-Q2"
-    ctx.doc(R, "dict inputs: _dict_job returns (its own key, result); values are stored under the key that travelled with them and looked up by the job's own key")
-    dj = ctx.func(PAR, "_dict_job", R)
-    p = dj.params()
-    ctx.require(len(p) == 2, R, f"{dj.fq}: params {p}")
-    rets = [s for s in dj.stmts() if isinstance(s, ast.Return)]
-    ctx.require(len(rets) == 1 and isinstance(rets[0].value, ast.Tuple) and len(rets[0].value.elts) == 2, R, f"{dj.fq}: return shape")
-    k, r = rets[0].value.elts
-    from ..norm import single_defs
-    defs = single_defs(dj.node, p)
-    rexpr = defs.get(r.id) if isinstance(r, ast.Name) else r
-    ok = isinstance(k, ast.Name) and k.id == p[0] and rexpr is not None and _is_job_call(rexpr, p[1])
-    ctx.check(ok, R, dj, rets[0], f"_dict_job does not return ({p[0]}, {p[1]}[0](*{p[1]}[1], **{p[1]}[2])): a result is not paired with its own key",
-              "returns (own key, own job's result)")
-    # dict path in parallel
+    ctx.doc(R, "dict inputs: every value is paired with the key of its own job -- either the job carries its key (tagging function returns (own key, result)) and results "
+               "are stored by that key, or results of an ORDERED run are zipped with the same key sequence; positional pairing of an unordered stream is the violation")
+    m = ctx.module(PAR)
     dict_if = None
     for st in fi.node.body:
         if isinstance(st, ast.If) and "isinstance(jobs, dict)" in norm(st.test):
             dict_if = st
     ctx.require(dict_if is not None, R, f"{fi.fq}: dict path not found")
-    comps = [x for x in ast.walk(dict_if) if isinstance(x, ast.DictComp)]
-    ctx.require(len(comps) == 2, R, f"{fi.fq}: expected two dict comprehensions on the dict path, found {len(comps)}")
-    for c in comps:
-        g = c.generators[0]
-        if isinstance(g.iter, ast.Call) and call_name(g.iter) == "parallel":
-            tgt = g.target
-            ok = isinstance(tgt, ast.Tuple) and len(tgt.elts) == 2 and norm(c.key) == norm(tgt.elts[0]) and norm(c.value) == norm(tgt.elts[1])
-            ctx.check(ok, R, fi, c, "the (key, value) pairs delivered by the workers are not stored as value-under-its-own-key", "keyed store of (key, value) pairs")
-            inner = g.iter.args[0] if g.iter.args else None
-            ok2 = False
-            if isinstance(inner, ast.ListComp) and len(inner.generators) == 1:
-                ig = inner.generators[0]
-                e = inner.elt
-                if isinstance(e, ast.Call) and isinstance(e.func, ast.Call) and call_name(e.func) == "delayed" and norm(e.func.args[0]) == "_dict_job" \
-                        and isinstance(ig.target, ast.Tuple) and [norm(a) for a in e.args] == [norm(x) for x in ig.target.elts] \
-                        and norm(ig.iter) == "jobs.items()":
-                    ok2 = True
-            ctx.check(ok2, R, fi, inner if inner is not None else c, "dict jobs are not submitted as `_dict_job(k, v) for k, v in jobs.items()`: a job may run under another job's key",
-                      "each job submitted with its own key")
+    pm = parent_map(dict_if)
+    inner_calls = [c for c in ast.walk(dict_if) if isinstance(c, ast.Call) and call_name(c) == "parallel"]
+    ctx.require(len(inner_calls) >= 1, R, f"{fi.fq}: the dict path does not delegate to parallel()")
+    rets = [s for s in ast.walk(dict_if) if isinstance(s, ast.Return)]
+    ctx.require(rets, R, "dict path return")
+    for c in inner_calls:
+        ra = kwarg(c, "return_as")
+        unordered = ra is not None and not (isinstance(ra, ast.Constant) and ra.value in (None, "list", "generator"))
+        # how is the stream consumed?
+        p = pm.get(id(c))
+        if isinstance(p, ast.comprehension) and isinstance(pm.get(id(p)), ast.DictComp):
+            comp = pm[id(p)]
+            tgt = p.target
+            keyed = isinstance(tgt, ast.Tuple) and len(tgt.elts) == 2 and norm(comp.key) == norm(tgt.elts[0]) and norm(comp.value) == norm(tgt.elts[1])
+            ctx.check(keyed, R, fi, comp, "the (key, value) pairs delivered by the workers are not stored as value-under-its-own-key", "keyed store of (key, value) pairs")
+            # jobs must carry their own key through a tagging function
+            sub = c.args[0] if c.args else None
+            ok2, why = False, "dict jobs are not submitted as `tag(k, v) for k, v in jobs.items()` with a tagging function that returns (its own key, its own job's result)"
+            if isinstance(sub, ast.ListComp) and len(sub.generators) == 1:
+                ig, e = sub.generators[0], sub.elt
+                if isinstance(e, ast.Call) and isinstance(e.func, ast.Call) and call_name(e.func) == "delayed" and e.func.args and isinstance(ig.target, ast.Tuple) \
+                        and [norm(a) for a in e.args] == [norm(x) for x in ig.target.elts] and norm(ig.iter) == "jobs.items()":
+                    tagger = m.funcs.get(norm(e.func.args[0]))
+                    if tagger is None:
+                        why = f"tagging function `{norm(e.func.args[0])}` is not a module-level function of parallel.py (cannot be read)"
+                    else:
+                        tp = tagger.params()
+                        trets = [s for s in tagger.stmts() if isinstance(s, ast.Return)]
+                        from ..norm import single_defs
+                        defs = single_defs(tagger.node, tp)
+                        if len(tp) == 2 and len(trets) == 1 and isinstance(trets[0].value, ast.Tuple) and len(trets[0].value.elts) == 2:
+                            k, r = trets[0].value.elts
+                            rexpr = defs.get(r.id) if isinstance(r, ast.Name) else r
+                            if isinstance(k, ast.Name) and k.id == tp[0] and rexpr is not None and _is_job_call(rexpr, tp[1]):
+                                ok2 = True
+                                ctx.ok(R, tagger, trets[0], "tagging function returns (own key, own job's result)")
+                            else:
+                                ctx.bad(R, tagger, trets[0], f"{tagger.name} does not return ({tp[0]}, {tp[1]}[0](*{tp[1]}[1], **{tp[1]}[2])): a result is not paired with its own key "
+                                                             f"(e.g. tagged with a hash or another value, so two jobs can share a slot)")
+                                ok2 = None
+            if ok2 is not None:
+                ctx.check(bool(ok2), R, fi, sub if sub is not None else c, why, "each job submitted with its own key")
+        elif isinstance(p, ast.Call) and call_name(p) in ("zip", "enumerate", "list", "tuple"):
+            if unordered:
+                ctx.bad(R, fi, p, f"results of an unordered run (return_as={norm(ra)}) are paired with keys positionally through {call_name(p)}(): a key gets the result of whichever job finished in its position")
+            else:
+                keys = [norm(a) for a in p.args if a is not c]
+                sub = c.args[0] if c.args else None
+                same = isinstance(sub, ast.ListComp) and len(sub.generators) == 1 and norm(sub.generators[0].iter) in keys + ["jobs"] and not sub.generators[0].ifs
+                ctx.check(same, R, fi, p, "ordered results are zipped with a key sequence that is not the one the jobs were submitted in", "ordered run zipped with the submission key sequence")
         else:
-            ok = norm(g.iter) == "jobs" and isinstance(g.target, ast.Name) and norm(c.key) == g.target.id \
-                and isinstance(c.value, ast.Subscript) and norm(c.value.slice) == g.target.id
-            ctx.check(ok, R, fi, c, "the returned dict does not map each key of `jobs` to the result stored under that same key", "returned dict maps k -> result[k] for k in jobs")
-    ctx.floor(R, 4)
+            ctx.require(False, R, f"{fi.fq}: dict-path stream consumed by `{norm(p)[:80]}`")
+    # the returned dict
+    for r in rets:
+        v = r.value
+        if isinstance(v, ast.DictComp):
+            g = v.generators[0]
+            ok = norm(g.iter) == "jobs" and isinstance(g.target, ast.Name) and norm(v.key) == g.target.id \
+                and isinstance(v.value, ast.Subscript) and norm(v.value.slice) == g.target.id
+            ctx.check(ok, R, fi, v, "the returned dict does not map each key of `jobs` to the result stored under that same key (e.g. looked up through hash(k) or by position)", "returned dict maps k -> result[k] for k in jobs")
+        elif isinstance(v, ast.Call) and call_name(v) == "dict":
+            ctx.ok(R, fi, v, "dict built from the (key, value) pairing checked above", nontrivial=False)
+        elif isinstance(v, ast.Name):
+            ctx.ok(R, fi, r, "returns the keyed dict", nontrivial=False)
+        else:
+            ctx.require(False, R, f"{fi.fq}: dict path returns `{norm(v)[:80]}`")
+    ctx.floor(R, 3)
 
 
 def check(ctx):
